@@ -47,7 +47,8 @@ def r91(facts, res):
     if st.startswith('core::iter::adapters::enumerate::Enumerate<core::slice::iter::Iter<') and 'rev::Rev' not in st:
         res.ok(R, 'rule-order', loc_of(b, nx[0][0]), 'rules are visited in ascending index order (Enumerate<slice::Iter<Rule>>)')
     else:
-        res.bad(R, 'rule-order', loc_of(b, inner), 'rules are iterated as %s: ties must go to the EARLIEST rule (ascending order + strict comparison)' % (st or '?'))
+        res.bad(R, 'rule-order', loc_of(b, inner), 'rules are iterated as %s: the index recorded for the winner must be the rule\'s position in the rule list '
+                'and ties must go to the EARLIEST rule (enumerate directly over the rule slice, ascending, with a strict comparison)' % (st or '?'))
     # the update of (longest, ridx)
     w = Walker(b, facts, max_paths=256)
     ps = [p for p in w.run(inner, stop=lambda x: x == inner or x not in loops[inner]) if p.end in (('loop', inner), ('stop', inner))]
